@@ -83,7 +83,7 @@ PROPS = {
                 pending=['eval_indep_partial lifted to histories with evals (closure-free names)']),
     'C12': dict(obligations=lambda: P('SqProps.C12'),
                 slices=['alias'], monitors=['c12'],
-                pending=['deepcopy_iso', 'independence_preserved']),
+                pending=['deepcopy_iso (the copy has the same aliasing-aware canonical form as the original); independence of the copy (copy_reaches_only_new_objects, stored_copy_is_independent) is proved']),
     'C13': dict(obligations=lambda: P('SqProps.C13') + TIE_FN,
                 slices=['builtin_args'], monitors=['c13'],
                 pending=['Harmless for the remaining non-mutators', 'writes_classified for the machine step']),
